@@ -400,7 +400,7 @@ class InterpBase(CtxMixin):
         if not (isinstance(first, ast.Assign) and len(first.targets) == 1 and isinstance(first.targets[0], ast.Name)
                 and isinstance(first.value, ast.Subscript) and isinstance(first.value.value, ast.Name)
                 and isinstance(first.value.slice, ast.Name) and first.value.slice.id == i):
-            return None
+            return self.counting_while_as_for(node, env, i)
         x, seq = first.targets[0].id, first.value.value.id
         inner = body[1:-1]
         bound_names = {n_.id for n_ in ast.walk(t.comparators[0]) if isinstance(n_, ast.Name)}
@@ -434,6 +434,46 @@ class InterpBase(CtxMixin):
         ast.fix_missing_locations(fn)
         fn.pyvc_from_while = node
         return fn, i, ln
+
+    def counting_while_as_for(self, node, env, i):
+        """`while i < B: BODY; i += 1` (i and the names of B not assigned in BODY, no break/continue/return) is
+        `for i in range(i0, B): BODY` followed by i = max(i0, B)"""
+        t = node.test
+        inner = node.body[:-1]
+        bound_names = {n_.id for n_ in ast.walk(t.comparators[0]) if isinstance(n_, ast.Name)}
+        for st in inner:
+            for n_ in ast.walk(st):
+                if isinstance(n_, (ast.Break, ast.Continue, ast.Return)):
+                    return None
+                if isinstance(n_, ast.Name) and isinstance(n_.ctx, ast.Store) and n_.id in ({i} | bound_names):
+                    return None
+                if isinstance(n_, (ast.Call, ast.Attribute)) and bound_names & {m_.id for m_ in ast.walk(n_) if isinstance(m_, ast.Name)}:
+                    pass
+        try:
+            start = env.lookup(i)
+        except KeyError:
+            return None
+        if not is_intlike(start) or isinstance(start, bool):
+            return None
+        try:
+            bound = self.pure(lambda: self.eval(t.comparators[0], env))
+        except Exception:
+            return None
+        if not is_intlike(bound) or isinstance(bound, bool):
+            return None
+        tmp = '__pyvc_start_%d' % id(node)
+        tmpb = '__pyvc_bound_%d' % id(node)
+        env.vars[tmp] = start
+        env.vars[tmpb] = bound
+        fn = ast.For(target=ast.Name(id=i, ctx=ast.Store()),
+                     iter=ast.Call(func=ast.Name(id='range', ctx=ast.Load()),
+                                   args=[ast.Name(id=tmp, ctx=ast.Load()), ast.Name(id=tmpb, ctx=ast.Load())], keywords=[]),
+                     body=inner or [ast.Pass()], orelse=[], type_comment=None)
+        ast.copy_location(fn, node)
+        ast.fix_missing_locations(fn)
+        fn.pyvc_from_while = node
+        after = concretize(z3.If(zint(bound) > zint(start), zint(bound), zint(start)))
+        return fn, i, after
 
     def stmt_While(self, node, env):
         conv = self.index_while_as_for(node, env) if self.fn_stack else None
